@@ -15,6 +15,7 @@ import (
 	"github.com/free5gc/go-upf/internal/forwarder/buffnetlink"
 	"github.com/free5gc/go-upf/internal/forwarder/perio"
 	"github.com/free5gc/go-upf/internal/logger"
+	"github.com/free5gc/go-upf/internal/report"
 	logger_util "github.com/free5gc/util/logger"
 )
 
@@ -42,3 +43,8 @@ func (g *Gtp5g) VerifCheckVersion() error { return g.checkVersion() }
 
 // VerifNewFlowDesc exposes the flow-description encoder.
 func (g *Gtp5g) VerifNewFlowDesc(s string, swap bool) (nl.AttrList, error) { return g.newFlowDesc(s, swap) }
+
+// VerifPsQueryURR is the query function the driver hands to the periodic server.
+func (g *Gtp5g) VerifPsQueryURR(m map[uint64][]uint32) (map[uint64][]report.USAReport, error) {
+	return g.psQueryURR(m)
+}
